@@ -15,12 +15,12 @@
     code by bin/check C07 (lock-step replay of the instrumented system.go under the controlled scheduler +
     real-time differential runs on real systems).
 
-    FINDING (see C07_stop_terminates_refuted): a Stop that runs its status switch after Start's switch but
-    before Start has assigned system.Context reads s.Context == nil, skips Kill(root) AND s.cancel(), and
-    returns nil; Start then completes normally.  The system keeps running in state `stop`: every later Stop
-    returns already-stopped and the guard goroutine waits for ever.  All clauses that talk about the effect
-    of Stop are therefore stated with the disjunct [skipped s = true] (the `_partial` theorems) and
-    C07_skip_only_in_start_window / C07_no_skip_after_start_returned delimit exactly when it can happen. *)
+    HISTORY: in the code before /repo commit 0843af8 Start released statusLock between its status switch and the
+    assignment of system.Context; a Stop landing in that window read s.Context == nil, skipped Kill(root) and
+    s.cancel() and returned nil, leaving a running system that could never be stopped (reproduced by this
+    check, monitor stop-skipped-kill-and-cancel). Start now runs the switch and the whole chain in ONE critical
+    section; the model follows the code and C07_stop_terminates is proved at full strength: the kill is skipped
+    only when the creation of the root itself failed (there is nothing to kill; Start returns start-failed). *)
 From Coq Require Import List NArith Bool.
 From Vivid Require Import System.Lifecycle System.LifecycleProofs.
 Import ListNotations.
@@ -34,12 +34,13 @@ Theorem C07_mutex c s i j p q :
   holder_pc p = true -> holder_pc q = true -> i = j.
 Proof. exact (mutex c s i j p q). Qed.
 
-(** whoever holds statusLock is never blocked and releases it within two of its OWN steps (the switch, the
-    deferred Unlock): no thread ever waits for a lock held by a blocked thread *)
+(** whoever holds statusLock is never blocked and releases it within four of its OWN default steps (Start: the
+    switch, root creation, the rest of the chain, the deferred Unlock - none of them waits for another thread;
+    stop: the switch, the deferred Unlock): no thread ever waits for a lock held by a blocked thread *)
 Theorem C07_lock_released c s j :
   reachable c s -> lock s = Some j ->
-  exists s1, step c (EStep j 0) s = Some s1 /\
-    (lock s1 = None \/ exists s2, step c (EStep j 0) s1 = Some s2 /\ lock s2 = None).
+  (exists s1, step c (EStep j 0) s = Some s1) /\
+  exists k s', (1 <= k <= 4)%nat /\ steps_of c j k s = Some s' /\ lock s' = None.
 Proof. exact (lock_released c s j). Qed.
 
 (** in every reachable state every unfinished thread either can take a step, or waits for statusLock whose
@@ -154,14 +155,30 @@ Theorem C07_cancel_is_stop c s g p :
   status s = Stopped /\ (exists j, In (j, false, Started) (lin s)) /\ exists r, p = Done KGuard r /\ r <> RNotStarted.
 Proof. exact (cancel_stops c s g p). Qed.
 
-(** the effects of a stop() that returned nil are the same whoever ran it (Stop(), the guard goroutine after a
-    cancel, Start's failure path): status stop, scheduler stopped, and - unless it skipped the kill, see (6) -
-    exactly one Kill(root), context cancelled, guardClosedSignal closed *)
-Theorem C07_stop_effect_partial c s i k r :
+(** Stop terminates the system: whoever ran a stop() that returned nil (Stop(), the guard goroutine after a
+    cancel, Start's failure path), if the root context exists - in particular after any successful Start, next
+    theorem - then the status is stop, the scheduler is stopped, exactly one Kill(root) was issued, the context
+    is cancelled and guardClosedSignal was seen closed *)
+Theorem C07_stop_terminates c s i k r :
+  reachable c s -> nth_error (thr s) i = Some (Done k r) -> stop_nil k r = true -> hasCtx s = true ->
+  status s = Stopped /\ schedStopped s = true /\ kills s = 1 /\ guardClosed s = true /\ ctxDone s = true.
+Proof. exact (stop_terminates c s i k r). Qed.
+
+Theorem C07_stop_terminates_after_start c s i k r i0 :
+  reachable c s -> nth_error (thr s) i0 = Some (Done KStart RNil) ->
+  nth_error (thr s) i = Some (Done k r) -> stop_nil k r = true ->
+  status s = Stopped /\ schedStopped s = true /\ kills s = 1 /\ guardClosed s = true /\ ctxDone s = true.
+Proof. exact (stop_terminates_after_start c s i k r i0). Qed.
+
+(** the precise general form: the only other way a stop() returns nil is that the creation of the root failed
+    (system.Context is nil for ever, no Kill was ever issued, the failing Start is in / has left its failure path
+    and returns start-failed): there is nothing to terminate *)
+Theorem C07_stop_effect c s i k r :
   reachable c s -> nth_error (thr s) i = Some (Done k r) -> stop_nil k r = true ->
   status s = Stopped /\ schedStopped s = true /\
-  (skipped s = true \/ (kills s = 1 /\ guardClosed s = true /\ ctxDone s = true /\ hasCtx s = true)).
-Proof. exact (stop_effect c s i k r). Qed.
+  ((hasCtx s = true /\ kills s = 1 /\ guardClosed s = true /\ ctxDone s = true)
+   \/ (hasCtx s = false /\ kills s = 0 /\ skipped s = true /\ exists j p, nth_error (thr s) j = Some p /\ failing p = true)).
+Proof. exact (stop_effect_full c s i k r). Qed.
 
 (** a stop that is inside its select (and may therefore time out) has issued the kill and cancelled the context *)
 Theorem C07_stop_failed_effect c s i w dl :
@@ -186,37 +203,28 @@ Theorem C07_goroutines c s :
   forall i p, nth_error (thr s) i = Some p -> is_done p = true.
 Proof. exact (all_done c s). Qed.
 
-(** ============================ (6) the Start/Stop race ============================ *)
+(** ============================ (6) Start's critical section ============================ *)
 
-(** REFUTED: "Stop terminates every actor; after Stop no goroutine of the system stays blocked for ever".
-    Witness (LifecycleProofs.race_state = run race_cfg race_evs (init [SLock; TLock ByStop None]); 2 threads, 15 steps): Start runs its status switch and releases the lock; Stop runs completely
-    (switch start -> stop, reads s.Context == nil, skips Kill and cancel, stops the scheduler, returns nil);
-    Start assigns system.Context, finishes the chain, starts the guard goroutine, returns nil.
-    Afterwards, whatever happens (any further events), the root context exists and was never killed, the
-    context is not cancelled, the status is stop, and the guard goroutine waits for ever. *)
-Theorem C07_stop_terminates_refuted :
-  exists c s,
-    reachable c s /\
-    thr s = [Done KStart RNil; Done KStop RNil; GWait] /\ hasCtx s = true /\ skipped s = true /\
-    forall evs', let s' := run c evs' s in
-      thr s' = [Done KStart RNil; Done KStop RNil; GWait] /\ status s' = Stopped /\ kills s' = 0 /\ ctxDone s' = false /\ leaveReq s' = false.
-Proof. exact race_witness. Qed.
+(** the Start that got through holds statusLock from its switch until the chain has finished (successfully or
+    not), and the status is start all that time: no stop can run its switch in between *)
+Theorem C07_start_holds_lock c s i p :
+  reachable c s -> nth_error (thr s) i = Some p -> start_hold p = true -> lock s = Some i /\ status s = Started.
+Proof. exact (start_holds_lock c s i p). Qed.
 
-(** the kill can only be skipped while the Start that got through sits between its Unlock and the assignment
-    of system.Context, or when that assignment failed (NewContext returned an error - e.g. an invalid advertise
-    address - so there never is a root; Start is in / has left its failure path and returns start-failed):
-    whenever the status is not ready and system.Context is still nil, that thread exists ([in_window],
-    System/LifecycleProofs.v) *)
-Theorem C07_skip_only_in_start_window c s :
+(** whenever the status is not ready and system.Context is still nil, either the Start that got through is
+    about to create the root - inside its critical section - or root creation failed ([failing]: that Start is
+    in / has left its failure path) *)
+Theorem C07_root_nil_only_in_start_or_failed c s :
   reachable c s -> status s <> Ready -> hasCtx s = false ->
-  exists i p, nth_error (thr s) i = Some p /\ in_window p = true.
-Proof. exact (skip_window c s). Qed.
+  exists i p, nth_error (thr s) i = Some p /\
+    ((p = SSpawnRoot /\ lock s = Some i /\ status s = Started) \/ failing p = true).
+Proof. exact (root_nil_only_in_start_or_failed c s). Qed.
 
-(** in particular once the Start that got through has returned nil no stop ever skips the kill: calls issued
-    one after the other are not affected *)
-Theorem C07_no_skip_after_start_returned c s i evs :
-  reachable c s -> nth_error (thr s) i = Some (Done KStart RNil) -> skipped (run c evs s) = skipped s.
-Proof. exact (no_skip_after_start_returned c s i evs). Qed.
+(** the kill is skipped only if root creation failed *)
+Theorem C07_skip_only_if_root_failed c s :
+  reachable c s -> skipped s = true ->
+  hasCtx s = false /\ kills s = 0 /\ exists i p, nth_error (thr s) i = Some p /\ failing p = true.
+Proof. exact (skip_only_if_root_failed c s). Qed.
 
 (** ============================ non-vacuity ============================ *)
 
@@ -225,7 +233,7 @@ Fixpoint rep (n : nat) (e : ev) : list ev := match n with O => [] | S k => e :: 
 
 (** Start; Stop; Stop; Start, one after the other, the tree terminating in time: nil, nil, already-stopped,
     already-stopped; everything finished, guard goroutine included; hypotheses of C07_goroutines /
-    C07_cancel_is_stop / C07_stop_effect_partial hold with skipped = false *)
+    C07_cancel_is_stop / C07_stop_terminates(_after_start) hold *)
 Definition ex_seq : st :=
   run ex_cfg (rep 7 (EStep 0 0) ++ rep 8 (EStep 1 0) ++ [ETreeDone] ++ rep 2 (EStep 1 0) ++ rep 5 (EStep 4 0)
               ++ rep 5 (EStep 2 0) ++ rep 4 (EStep 3 0))%nat
@@ -254,12 +262,12 @@ Example C07_ex_timeout :
   status ex_timeout = Stopped /\ kills ex_timeout = 1 /\ guardClosed ex_timeout = false /\ schedStopped ex_timeout = false.
 Proof. split; [apply reachable_run; reflexivity|vm_compute; repeat split]. Qed.
 
-(** a state satisfying the hypotheses of C07_lock_released / the lock-wait disjunct of C07_no_deadlock:
-    thread 0 holds the lock (at the switch), thread 1 waits for it *)
+(** a state satisfying the hypotheses of C07_lock_released / C07_start_holds_lock / the lock-wait disjunct of
+    C07_no_deadlock: thread 0 (Start) holds the lock and is about to create the root, thread 1 (Stop) waits *)
 Example C07_ex_lock_wait :
-  let s := run ex_cfg [EStep 0 0; EStep 0 0; EStep 1 0]%nat (init [SLock; TLock ByStop None]) in
-  reachable ex_cfg s /\ lock s = Some 0%nat /\ nth_error (thr s) 0 = Some SCheck /\ nth_error (thr s) 1 = Some (TLock ByStop None) /\
-  step ex_cfg (EStep 1 0) s = None.
+  let s := run ex_cfg [EStep 0 0; EStep 0 0; EStep 0 0; EStep 1 0]%nat (init [SLock; TLock ByStop None]) in
+  reachable ex_cfg s /\ lock s = Some 0%nat /\ nth_error (thr s) 0 = Some SSpawnRoot /\ nth_error (thr s) 1 = Some (TLock ByStop None) /\
+  status s = Started /\ hasCtx s = false /\ step ex_cfg (EStep 1 0) s = None.
 Proof. cbv zeta. split; [apply reachable_run; reflexivity|vm_compute; repeat split]. Qed.
 
 (** the guard goroutine waits for ever, by design, when the system is started and neither stopped nor
@@ -284,8 +292,16 @@ Proof. cbv zeta. split; [apply reachable_run; reflexivity|vm_compute; repeat spl
 
 (** Start whose chain fails: it stops the system itself and returns start-failed(nil); no guard goroutine *)
 Example C07_ex_start_fails :
-  let s := run ex_cfg (rep 5 (EStep 0 0) ++ [EStep 0 1] ++ rep 7 (EStep 0 0) ++ [ETreeDone] ++ rep 2 (EStep 0 0))%nat (init [SLock]) in
+  let s := run ex_cfg (rep 4 (EStep 0 0) ++ [EStep 0 1] ++ rep 8 (EStep 0 0) ++ [ETreeDone] ++ rep 2 (EStep 0 0))%nat (init [SLock]) in
   reachable ex_cfg s /\ thr s = [Done KStart (RStartFailed RNil)] /\ status s = Stopped /\ kills s = 1 /\ spawned s = 0.
+Proof. cbv zeta. split; [apply reachable_run; reflexivity|vm_compute; repeat split]. Qed.
+
+(** root creation fails (e.g. invalid advertise address): Start's own Stop finds nothing to kill and returns nil,
+    Start returns start-failed(nil): the second disjunct of C07_stop_effect, the hypothesis of C07_skip_only_if_root_failed *)
+Example C07_ex_root_fails :
+  let s := run ex_cfg (rep 3 (EStep 0 0) ++ [EStep 0 1] ++ rep 7 (EStep 0 0))%nat (init [SLock]) in
+  reachable ex_cfg s /\ thr s = [Done KStart (RStartFailed RNil)] /\ status s = Stopped /\ kills s = 0 /\ hasCtx s = false /\
+  skipped s = true /\ schedStopped s = true.
 Proof. cbv zeta. split; [apply reachable_run; reflexivity|vm_compute; repeat split]. Qed.
 
 (** the call-level specification used by the differential check (Lifecycle.admissible) on a few vectors *)
@@ -321,10 +337,12 @@ Print Assumptions C07_one_way_run.
 Print Assumptions C07_stop_before_start.
 Print Assumptions C07_one_kill.
 Print Assumptions C07_cancel_is_stop.
-Print Assumptions C07_stop_effect_partial.
+Print Assumptions C07_stop_terminates.
+Print Assumptions C07_stop_terminates_after_start.
+Print Assumptions C07_stop_effect.
 Print Assumptions C07_stop_failed_effect.
 Print Assumptions C07_created.
 Print Assumptions C07_goroutines.
-Print Assumptions C07_stop_terminates_refuted.
-Print Assumptions C07_skip_only_in_start_window.
-Print Assumptions C07_no_skip_after_start_returned.
+Print Assumptions C07_start_holds_lock.
+Print Assumptions C07_root_nil_only_in_start_or_failed.
+Print Assumptions C07_skip_only_if_root_failed.
